@@ -3,9 +3,11 @@ package core
 import (
 	"bytes"
 	"context"
+	"fmt"
 	"hash/crc32"
 	"io"
 	"io/ioutil"
+	"strings"
 	"time"
 
 	context2 "github.com/oneconcern/datamon/pkg/context"
@@ -60,6 +62,11 @@ func (label *Label) UploadDescriptor(ctx context.Context, bundle *Bundle) (err e
 	err = RepoExists(bundle.RepoID, bundle.contextStores)
 	if err != nil {
 		return err
+	}
+	if strings.Contains(label.Descriptor.Name, "/") {
+		// the name is a single element of the path to the label: with a separator, the label could
+		// not be told from its path, and listing the labels of the repo would fail
+		return fmt.Errorf("invalid label name %q: must not contain %q", label.Descriptor.Name, "/")
 	}
 	label.Descriptor.BundleID = bundle.BundleID
 	buffer, err := yaml.Marshal(label.Descriptor)
